@@ -307,7 +307,33 @@ def job_robust(ctx: Ctx, natom):
         return sum((C[A][k] * (AL[A][k] / PI) ** 1.5 * (-AL[A][k] * d2).exp() for k in range(ncore)), K(0))
 
     def replay(m):
-        return None, dict(note="structural obligation on the captured residual / recombination")
+        """concrete end-to-end run: density == fitted core model of a two-centre molecule, so the robust potential must be the sum of the analytic core potentials"""
+        import importlib, warnings
+        warnings.simplefilter("ignore")
+        with unpatched(po, rp, ut, co):
+            import grid.robust_poisson as rpm, grid.coulomb as com
+            rp2 = importlib.reload(rpm)
+            from grid.molgrid import MolGrid
+            from grid.onedgrid import GaussLegendre
+            from grid.rtransform import BeckeRTransform, InverseRTransform
+            from grid.becke import BeckeWeights
+            nums_c = np.array([6, 1])
+            xyz = np.array([[0.0, 0.0, -0.6], [0.0, 0.0, 1.1]])
+            rgrid = BeckeRTransform(1e-4, 1.5).transform_1d_grid(GaussLegendre(40))
+            mol = MolGrid.from_size(nums_c, xyz, 50, rgrid=rgrid, aim_weights=BeckeWeights(), store=True)
+            dens = np.zeros(mol.size)
+            for z, ctr in zip(nums_c, xyz):
+                cs, als = com.load_atomic_gaussian_params(int(z))
+                dens += rp2._build_core_density(mol.points, ctr, cs, als)
+            fn = rp2.solve_poisson_robust(mol, dens, InverseRTransform(BeckeRTransform(1e-4, 1.5)), nums_c, xyz, include_origin=False)
+            pts = np.array([[0.3, 0.2, 0.1], [0.0, 0.5, 1.4], [1.0, -1.0, 0.2]])
+            got = fn(pts)
+            want = np.zeros(len(pts))
+            for z, ctr in zip(nums_c, xyz):
+                cs, als = com.load_atomic_gaussian_params(int(z))
+                want += com.coulomb_potential(pts, np.tile(ctr, (len(cs), 1)), cs, als)
+            rp_ = importlib.reload(rpm)
+            return not np.allclose(got, want, rtol=1e-6, atol=1e-8), dict(returned=got.tolist(), sum_of_analytic_core_potentials=want.tolist())
     for dens_label, dens in (("arbitrary density", rho), ("density equal to the core model", arr([sum((core(i, A) for A in range(natom)), K(0)) for i in range(npts)]))):
         def body():
             del bvp_seen[:], coul_calls[:]
